@@ -178,6 +178,15 @@ Lemma stored_frame di t oe d (st st1 : store) :
   stored di t oe d st1.
 Proof. intros S E. destruct S. constructor; auto. congruence. Qed.
 
+Lemma stored_oci di t oe d (st : store) :
+  stored di t oe d st -> di_md di = MdOCI ->
+  d_extra d = pad_to 384 (sha256_prefix ++ hex_of (sha256 (di_content di))) /\
+  nread (Z.to_nat (d_off d)) (length (di_content di)) st = di_content di.
+Proof.
+  intros S E. pose proof (sto_extra _ _ _ _ _ S) as X. rewrite E in X. cbn in X.
+  inversion X. split; [reflexivity | apply (sto_content _ _ _ _ _ S)].
+Qed.
+
 Lemma nread_len0 (a : nat) (st st1 : store) : nread a 0 st1 = nread a 0 st.
 Proof. reflexivity. Qed.
 
